@@ -556,26 +556,24 @@ struct QExpression {
 
     SizeT64I operator%(const QExpression &right) const noexcept {
         SizeT64I result = 0;
+        const SizeT64I divisor =
+            ((right.Type == ExpressionType::RealNumber) ? SizeT64I(right.Value.Number.Real) : right.Value.Number.Integer);
+
+        if (divisor == SizeT64I{-1}) {
+            // x % -1 is 0 for every x; the minimum value % -1 traps.
+            return result;
+        }
 
         switch (Type) {
             case ExpressionType::NaturalNumber:
             case ExpressionType::IntegerNumber: {
-                if (right.Type == ExpressionType::RealNumber) {
-                    result = (Value.Number.Integer % SizeT64I(right.Value.Number.Real));
-                } else {
-                    result = (Value.Number.Integer % right.Value.Number.Integer);
-                }
-
+                result = (Value.Number.Integer % divisor);
                 break;
             }
 
             case ExpressionType::RealNumber: {
                 result = SizeT64I(Value.Number.Real);
-                if (right.Type == ExpressionType::RealNumber) {
-                    result %= SizeT64I(right.Value.Number.Real);
-                } else {
-                    result %= right.Value.Number.Integer;
-                }
+                result %= divisor;
             }
 
             default: {
